@@ -340,26 +340,31 @@ def m_c17(out) -> list[Violation]:
             vs.append(Violation(what=f"workflow is {out['final']['wf']} after the cancel was processed and the queue drained",
                                 signature="cancel-not-final", replay=_replay(out, {"final": fs})))
         elif out["final"]["wf"] != "CANCELED" and "CANCELED" in fs.values() and "TERMINAL" not in fs.values() \
-                and not workflow_in_effect_finished(out, at_cancel):
+                and not workflow_in_effect_finished(out, at_cancel, decided, fs):
             vs.append(Violation(what=f"a stage was canceled but the workflow ends {out['final']['wf']}",
                                 signature=f"cancel-final:{out['final']['wf']}", replay=_replay(out, {"final": fs})))
     return vs
 
 
-def workflow_in_effect_finished(out, at_cancel: dict) -> bool:
-    """when the cancel was processed nothing could run any more: every stage was complete, or NOT_STARTED
-    behind a halted (TERMINAL / STOPPED / CANCELED) stage"""
+def workflow_in_effect_finished(out, at_cancel: dict, decided=(), fs=None) -> bool:
+    """when the cancel was processed nothing could run any more: every stage was complete (or its outcome was
+    already decided - every task result recorded / its CompleteStage or SkipStage pushed - and it then ended in
+    that completed status), or NOT_STARTED with no way left to be started: an AND join behind a halted
+    (TERMINAL / STOPPED / CANCELED) or itself blocked stage, any other join with EVERY upstream halted or blocked"""
     specs = {s["ref"]: s for s in out["case"]["spec"]["stages"]}
+    fs = fs or {}
+    eff = {ref: (fs[ref] if st not in COMPLETE and ref in decided and fs.get(ref) in COMPLETE else st)
+           for ref, st in at_cancel.items()}
 
     def blocked(ref, seen=()):
         if ref in seen:
             return False
-        for r in specs[ref].get("reqs", []):
-            if at_cancel[r] in HALT or (at_cancel[r] == "NOT_STARTED" and blocked(r, seen + (ref,))):
-                return True
-        return False
-    return all(st in COMPLETE or (st == "NOT_STARTED" and specs[ref].get("join", "AND") == "AND" and blocked(ref))
-               for ref, st in at_cancel.items())
+        reqs = specs[ref].get("reqs", [])
+        dead = [eff[r] in HALT or (eff[r] == "NOT_STARTED" and blocked(r, seen + (ref,))) for r in reqs]
+        if not reqs:
+            return False
+        return any(dead) if specs[ref].get("join", "AND") == "AND" else all(dead)
+    return all(st in COMPLETE or (st == "NOT_STARTED" and blocked(ref)) for ref, st in eff.items())
 
 
 def in_effect_finished(out, cseq: int) -> set:
@@ -426,6 +431,15 @@ def in_flight_tasks(out) -> dict:
     return slack
 
 
+def script_shifted(out) -> bool:
+    """a crash cut a RunTask delivery after the task body ran and the task's scripted behaviour depends on how often
+    it has been called (jump first, succeed later ...): the re-execution allowed by at-least-once delivery then
+    legitimately produces a different result than the uninterrupted run, so the data seen downstream is not
+    comparable with the baseline (a harness artefact of scripting tasks by call count, not an engine property)"""
+    scripts = {(s["ref"], t): steps for s in out["case"]["spec"]["stages"] for t, steps in enumerate(s.get("tasks", []))}
+    return any(len(set(scripts.get(k, []))) > 1 for k in in_flight_tasks(out))
+
+
 def seen_ctx(out) -> dict:
     d = {}
     for e in out["ledger"]:
@@ -434,8 +448,9 @@ def seen_ctx(out) -> dict:
 
 
 def m_c01(out, base) -> list[Violation]:
-    vs = m_outcome(out, base, "crash+restart+recovery", exec_slack=in_flight_tasks(out))
-    if out["quiescent"] and base["quiescent"] and halt_free(base):
+    shifted = script_shifted(out)
+    vs = [] if shifted else m_outcome(out, base, "crash+restart+recovery", exec_slack=in_flight_tasks(out))
+    if out["quiescent"] and base["quiescent"] and halt_free(base) and not shifted:
         sa, sb = seen_ctx(out), seen_ctx(base)
         for k, ctxs in sa.items():
             want = sb.get(k, [])
